@@ -4,10 +4,11 @@
 //! line `#` ends a case), runs each case against the real component through the cfg-guarded
 //! hooks in quinn-proto and prints one observation line per op followed by `#`.
 //! A panic inside a case is an outcome: the case prints `PANIC <message>` then `#`.
+mod sim;
 use std::io::{self, BufRead, Write};
 use std::panic;
 
-fn run_comp(name: &str, udp: bool) {
+fn run_comp(name: &str, mode: u8) {
     let stdin = io::stdin();
     let stdout = io::stdout();
     let mut out = io::BufWriter::new(stdout.lock());
@@ -20,10 +21,10 @@ fn run_comp(name: &str, udp: bool) {
             let name2 = name.to_string();
             let ops2 = std::mem::take(&mut ops);
             let res = panic::catch_unwind(move || {
-                if udp {
-                    quinn_udp::verif_hooks::run(&name2, &ops2)
-                } else {
-                    quinn_proto::verif_hooks::run(&name2, &ops2)
+                match mode {
+                    1 => quinn_udp::verif_hooks::run(&name2, &ops2),
+                    2 => Some(sim::run_case(&ops2)),
+                    _ => quinn_proto::verif_hooks::run(&name2, &ops2),
                 }
             });
             match res {
@@ -58,8 +59,18 @@ fn run_comp(name: &str, udp: bool) {
 fn main() {
     let args: Vec<String> = std::env::args().collect();
     match args.get(1).map(|s| s.as_str()) {
-        Some("comp") => run_comp(&args[2], false),
-        Some("udp") => run_comp(&args[2], true),
+        Some("comp") => run_comp(&args[2], 0),
+        Some("udp") => run_comp(&args[2], 1),
+        Some("sim") => run_comp(&args[2], 2),
+        Some("gencert") => {
+            // one-off: writes an Ed25519 self-signed certificate (deterministic signature sizes)
+            let dir = &args[2];
+            let kp = rcgen::KeyPair::generate_for(&rcgen::PKCS_ED25519).unwrap();
+            let params = rcgen::CertificateParams::new(vec!["localhost".to_string()]).unwrap();
+            let cert = params.self_signed(&kp).unwrap();
+            std::fs::write(format!("{}/cert.der", dir), cert.der().as_ref()).unwrap();
+            std::fs::write(format!("{}/key.der", dir), kp.serialize_der()).unwrap();
+        }
         Some("constants") => {
             for (k, v) in quinn_proto::verif_hooks::constants::constants() {
                 println!("{} {}", k, v);
